@@ -189,6 +189,68 @@ def only_sequential_call_sites(src, name, def_file, def_span):
     return True, "functor %s: all %d call sites pass the literal ExecutionPolicy::Seq" % (name, uses)
 
 
+def split_args(argtext):
+    out, depth, cur = [], 0, ""
+    for ch in argtext:
+        if ch in "([{<" and not (ch == "<" and False):
+            depth += ch != "<"
+        elif ch in ")]}":
+            depth -= 1
+        if ch == "," and depth == 0:
+            out.append(cur.strip())
+            cur = ""
+        else:
+            cur += ch
+    if cur.strip():
+        out.append(cur.strip())
+    return out
+
+
+def collisions_calls(t):
+    """every X.Collisions<..>(recorder, ...) call: (pos, recorder name, parallel flag text)"""
+    res = []
+    for m in re.finditer(r"\bCollisions<\w+>\s*\(", t):
+        end = balanced(t, m.end() - 1)
+        args = split_args(t[m.end():end - 1])
+        if len(args) < 2:
+            continue
+        # (recorder, queries[, parallel[, ctx]])  or  (recorder, f, n[, parallel[, ctx]])
+        view_form = ".cview(" in args[1] or ".view(" in args[1] or len(args) == 2
+        k = 2 if view_form else 3
+        flag = args[k] if len(args) > k else "true(default)"
+        res.append((m.start(), args[0], norm_ws(flag)))
+    return res
+
+
+def unite_mode(t, pos):
+    """how the unite call at pos is driven: ('seq', why) or ('par', why)"""
+    # inside the argument list of a for_each*/ transform call?
+    for c in re.finditer(r"\b(for_each_n|for_each|transform)\s*\(", t[max(0, pos - 1500):pos]):
+        op = max(0, pos - 1500) + c.end() - 1
+        end = balanced(t, op)
+        if op < pos < end:
+            first = norm_ws(t[op + 1:end]).split(",")[0].strip()
+            if first == "ExecutionPolicy::Seq":
+                return "seq", "for_each with the literal ExecutionPolicy::Seq"
+            return "par", "inside %s(%s, ...)" % (c.group(1), first[:40])
+    # inside a lambda handed to a collider recorder?
+    for lm in re.finditer(r"auto (\w+) = \[[^\]]*\]\s*\([^)]*\)\s*\{", t[max(0, pos - 800):pos]):
+        lb = max(0, pos - 800) + lm.end() - 1
+        le = balanced(t, lb, "{", "}")
+        if lb < pos < le:
+            fn = lm.group(1)
+            rm = re.search(r"auto (\w+) = MakeSimpleRecorder\(%s\);" % fn, t[le:le + 400])
+            if not rm:
+                return "par", "lambda %s with an unrecognised driver" % fn
+            for cpos, rec, flag in collisions_calls(t):
+                if rec == rm.group(1) and cpos > le and cpos < le + 1200:
+                    if flag == "false":
+                        return "seq", "collider recorder driven by Collisions(..., parallel=false)"
+                    return "par", "collider recorder driven by Collisions(..., parallel=%s)" % flag
+            return "par", "recorder %s: no Collisions call found" % rm.group(1)
+    return "seq", "plain sequential statement / loop"
+
+
 # ------------------------------------------------------------------ rules
 
 class Site:
@@ -345,6 +407,33 @@ def rules(src):
         else:
             s.norm, s.detail = "StableMergeBounds", "left pivot: lower_bound on the right run; right pivot: upper_bound on the left run; leaves std::merge / std::stable_sort"
 
+    # ---- union-find: the PARTITION is interleaving independent (C13 uf_partition),
+    # the ROOT identity is not.  A union-find whose roots (find()) are written to an
+    # output must have all its unite calls in a fixed order, or canonicalise.
+    for f, t in src.items():
+        if f == "src/disjoint_sets.h":
+            continue
+        for m in re.finditer(r"\bDisjointSets (\w+)\(", t):
+            var = m.group(1)
+            fend = t.find("\n}\n", m.start())
+            body = t[m.start():fend if fend > 0 else len(t)]
+            s = add(f, m.start(), "DisjointSets %s" % var, "UnionFindRoots")
+            modes = [unite_mode(t, m.start() + u.start()) for u in re.finditer(r"\b%s\.unite\(" % var, body)]
+            par = [w for k, w in modes if k == "par"]
+            uses_find = re.search(r"\b%s\.find\(" % var, body) is not None
+            uses_cc = re.search(r"\b%s\.connectedComponents\(" % var, body) is not None
+            if not modes:
+                s.norm, s.detail = "NotNormalised", "no unite call recognised"
+            elif not par:
+                s.norm, s.detail = "SequentialPolicy", "all %d unite call sites run in a fixed order (%s): roots deterministic" % (len(modes), "; ".join(sorted(set(w for _, w in modes)))[:120])
+            elif not uses_find and uses_cc:
+                s.norm, s.detail = 'Allowed "only connectedComponents labels are read: numbered by first vertex of each class, a function of the partition (C13 uf_partition)"', "parallel unite: " + par[0]
+            elif f == "src/boolean3.cpp" and var == "uA":
+                s.norm = 'Allowed "roots are only used as one representative per component whose winding is flooded over the component: winding03_schedule_independent_given_constant_winding (hypothesis tied by harness c04_wind)"'
+                s.detail = "parallel unite: " + par[0]
+            else:
+                s.norm, s.detail = "NotNormalised", "%s.find() roots reach an output while unite runs in parallel (%s): the root of a class depends on the schedule" % (var, par[0])
+
     # ---- AtomicAdd ---------------------------------------------------------
     for f, t in src.items():
         if f in ("src/utils.h", "src/atomic_compat.h"):
@@ -488,6 +577,8 @@ def emit(sites, cmps, path):
 def run(repo, out):
     src = load(repo)
     sites, cmps = rules(src)
+    cmps["collisions_parallel_flags"] = ["%s:%d %s" % (f, lineno(t, p), flag) for f, t in sorted(src.items()) if f != "src/collider.h"
+                                         for p, rec, flag in collisions_calls(t)]
     sites.sort(key=lambda s: (s.file, s.line, s.what))
     emit(sites, cmps, out)
     return [s.row() for s in sites], cmps
